@@ -20,6 +20,8 @@ type CNFCase struct {
 	Entry string  `json:"entry"` // slice | slicenb | dimacs
 	NbMax int     `json:"nbmax"` // initial learned-clause limit, 0 = default
 	Dev   int     `json:"dev"`   // E2 deviation bound
+	// CPAMO: the configuration of "gophersat -cp": DetectAtMostOne() on the parsed problem, then CuttingPlanes on
+	CPAMO bool `json:"cpamo,omitempty"`
 }
 
 // cnfObs is everything observable from one execution.
@@ -69,6 +71,12 @@ func runCNF(c CNFCase, certified bool) (o cnfObs) {
 	if o.parseErr != nil {
 		return
 	}
+	if c.CPAMO {
+		if p, v := core.Safely(func() { pb.DetectAtMostOne() }); p {
+			o.parsePanic = v
+			return
+		}
+	}
 	o.parseStatus = pb.Status
 	o.nbVars = pb.NbVars
 	var s *solver.Solver
@@ -85,6 +93,7 @@ func runCNF(c CNFCase, certified bool) (o cnfObs) {
 			}
 		}()
 		s = solver.New(pb)
+		s.CuttingPlanes = c.CPAMO
 		if certified {
 			ch = make(chan string, 256)
 			drained = make(chan struct{})
@@ -460,6 +469,37 @@ func enumerateCNF(tier string, seed int64, certOnly bool, yield func(string, cor
 					return
 				}
 			}
+		}
+	}
+	// CPA (C06 only): the configuration of "gophersat -cp -certified" (DetectAtMostOne, then cutting planes, with a
+	// certificate) on at-most-one structured formulas: the pigeonhole members of family M with their one-edit
+	// neighbours, and a regression instance (9 variables, 13 clauses, found by a hunting sub-agent) with its neighbours
+	if certOnly {
+		reg := [][]int{{1, 2, 3}, {8, 9}, {-1, -6}, {-3, -7}, {-2, -4}, {-5, -9}, {-5, -7}, {-7, -9}, {-6, -8}, {4, 5}, {-1, -8}, {-3, -9}, {6, 7}}
+		emitCPA := func(f [][]int, n int) bool {
+			return yield("CPA", CNFCase{F: f, N: n, Entry: "slice", CPAMO: true})
+		}
+		vars := [][][]int{reg}
+		for i := range reg {
+			vars = append(vars, append(copyCNF(reg[:i]), copyCNF(reg[i+1:])...))
+			for j := range reg[i] {
+				h := copyCNF(reg)
+				h[i][j] = -h[i][j]
+				vars = append(vars, h)
+			}
+		}
+		for _, f := range vars {
+			if !emitCPA(f, 9) {
+				return
+			}
+		}
+		if !famM(seed, tier, func(name string, f [][]int, n int) bool {
+			if !strings.HasPrefix(name, "php") {
+				return true
+			}
+			return emitCPA(f, n)
+		}) {
+			return
 		}
 	}
 	s4max := 3
